@@ -57,6 +57,8 @@ type FuncCtx struct {
 type ModLoc struct {
 	Heap string
 	At   *Term // nil: whole array
+	Lo   *Term // element heaps: only cells [Lo, Hi) of row At (nil: the whole row)
+	Hi   *Term
 }
 
 type loopInfo struct {
@@ -378,6 +380,7 @@ func (fc *FuncCtx) frameFormula(h string, before, after *Term, alloc0 *Term, loc
 	}
 	i := BVar("fr", SInt)
 	var inFrame []*Term
+	var ranged []ModLoc
 	for _, l := range locs {
 		if l.Heap != h {
 			continue
@@ -386,9 +389,39 @@ func (fc *FuncCtx) frameFormula(h string, before, after *Term, alloc0 *Term, loc
 			return True
 		}
 		inFrame = append(inFrame, Eq(i, l.At))
+		if l.Lo != nil {
+			ranged = append(ranged, l)
+		}
 	}
-	guard := And(Le(IntLit(0), i), Le(i, alloc0), Not(Or(inFrame...)))
-	return Forall([]*Term{i}, Implies(guard, Eq(Select(after, i), Select(before, i))))
+	var ag *Term
+	if alloc0 != nil {
+		ag = And(Le(IntLit(0), i), Le(i, alloc0))
+	}
+	guard := And(ag, Not(Or(inFrame...)))
+	out := Forall([]*Term{i}, Implies(guard, Eq(Select(after, i), Select(before, i))))
+	// rows named with a cell range: cells outside every range given for that row are unchanged
+	for _, l := range ranged {
+		j := BVar("fj", SInt)
+		var covered []*Term
+		whole := False
+		for _, l2 := range locs {
+			if l2.Heap != h || l2.At == nil {
+				continue
+			}
+			same := Eq(l2.At, l.At)
+			if l2.Lo == nil {
+				whole = Or(whole, same)
+				continue
+			}
+			covered = append(covered, And(same, Le(l2.Lo, j), Lt(j, l2.Hi)))
+		}
+		var ag2 *Term
+		if alloc0 != nil {
+			ag2 = Le(l.At, alloc0)
+		}
+		out = And(out, Implies(And(ag2, Not(whole)), Forall([]*Term{j}, Implies(Not(Or(covered...)), Eq(Select(Select(after, l.At), j), Select(Select(before, l.At), j))))))
+	}
+	return out
 }
 
 func (fc *FuncCtx) checkFrame(fr *Frame, st *State, kind string, pos token.Pos, only map[string]bool) {
@@ -483,7 +516,8 @@ func elabModLoc(p *Program, m string, env *Env) (locs []ModLoc, err error) {
 		return []ModLoc{{Heap: "G:" + obj.Pkg().Path() + "." + obj.Name()}}, nil
 	case strings.HasPrefix(m, "captured(") && strings.HasSuffix(m, ")"):
 		return []ModLoc{{Heap: "FV:" + m[9:len(m)-1]}}, nil
-	case strings.HasSuffix(m, "[*]"):
+	case strings.HasSuffix(m, "[*]") || strings.HasSuffix(m, "[+]"):
+		// x[*]: the cells of slice x (off .. off+len); x[+]: up to its capacity (in-place append)
 		e, perr := ParseSpec(m[:len(m)-3])
 		if perr != nil {
 			return nil, perr
@@ -493,7 +527,11 @@ func elabModLoc(p *Program, m string, env *Env) (locs []ModLoc, err error) {
 		if !ok {
 			return nil, fmt.Errorf("%s is not a slice", m[:len(m)-3])
 		}
-		return []ModLoc{{Heap: p.elemHeap(sl.Elem()), At: SBase(v.T)}}, nil
+		hi := Add(SOff(v.T), SLen(v.T))
+		if strings.HasSuffix(m, "[+]") {
+			hi = Add(SOff(v.T), SCap(v.T))
+		}
+		return []ModLoc{{Heap: p.elemHeap(sl.Elem()), At: SBase(v.T), Lo: SOff(v.T), Hi: hi}}, nil
 	}
 	// x.f
 	e, perr := ParseSpec(m)
